@@ -145,9 +145,21 @@ func runC01(c *fw.Ctx) {
 	c.Obs("forced_flushes", int64(forced))
 	multi := false
 	data := map[string]interface{}{"tables": describeTables(s.specs), "points": len(s.points)}
+	arraysDoubled := false
 	for ti := range s.specs {
 		t := &s.specs[ti]
+		// Array values: the comparison uses what the pinned tree does (elements after the first twice, see
+		// ref.ArrayElementsTwice), so that any *other* deviation on array-valued points is still a violation;
+		// wherever that differs from each element once, the known finding is reported.
+		sane, _ := t.Aggregate(s.points)
+		ref.ArrayElementsTwice = true
 		cells, ood := t.Aggregate(s.points)
+		ref.ArrayElementsTwice = false
+		for id, cell := range cells {
+			if sc := sane[id]; sc == nil || sc.Points != cell.Points {
+				arraysDoubled = true
+			}
+		}
 		if ood > 0 {
 			c.Obs("tables_out_of_reference_domain", 1)
 			continue
@@ -182,6 +194,9 @@ func runC01(c *fw.Ctx) {
 		if c.Violated() {
 			break
 		}
+	}
+	if arraysDoubled && !c.Violated() {
+		c.Violate("c01-array-elements-doubled", "array-valued points: the tables hold every array element after the first twice (e.g. [a, b, c] adds a + 2b + 2c to SUM and 5 to _points); everything else about these points matched")
 	}
 	c.Nontrivial(multi && boundary && forced > 0)
 	c.Sample(map[string]interface{}{"tables": describeTables(s.specs), "points": len(s.points), "forced_flushes": forced, "first_point": fmt.Sprintf("%v %v %v", s.points[0].TS.Format(time.RFC3339Nano), s.points[0].Dims, s.points[0].Vals)})
